@@ -124,7 +124,19 @@ fn main() {
                 None => std::process::exit(2),
             };
             let tier = Tier::parse(&args[3]).unwrap_or(Tier::Quick);
-            driver::report_main(c, tier, args[4].parse().unwrap_or(0), args[5].parse().unwrap_or(0), args[6].parse().unwrap_or(0), &args[7], &args[8], &args[9])
+            driver::report_main(
+                c,
+                tier,
+                args[4].parse().unwrap_or(0),
+                args[5].parse().unwrap_or(0),
+                args[6].parse().unwrap_or(0),
+                &args[7],
+                &args[8],
+                &args[9],
+                args.get(10).and_then(|s| s.parse().ok()).unwrap_or(0),
+                args.get(11).and_then(|s| s.parse().ok()).unwrap_or(0),
+                args.get(12).and_then(|s| s.parse().ok()).unwrap_or(driver::DEFAULT_SEED),
+            )
         }
         Some("replay") => match args.get(2) {
             Some(f) => driver::replay_main(f),
